@@ -27,18 +27,20 @@ FRESH = {'np.array', 'np.exp', 'np.stack', 'np.concatenate', 'np.take', 'np.fft.
          'np.bool_', 'np.round', 'np.rint', 'np.abs', 'np.conj', 'np.real_if_close'}
 ALIAS = {'np.asarray', 'np.asanyarray', 'np.broadcast_to', 'dask.array.asanyarray', 'da.asanyarray', 'tuple', 'list', 'dict', 'np.moveaxis',
          'np.swapaxes', 'np.reshape', 'np.squeeze', 'np.atleast_1d', 'np.real', 'np.imag'}
-FRESH_METHODS = {'to', 'to_value', 'conj', 'round', 'copy', 'compute', 'persist', 'rechunk', 'indices', 'items', 'keys', 'values', 'get', 'format',
+FRESH_METHODS = {'to', 'conj', 'round', 'copy', 'compute', 'persist', 'rechunk', 'indices', 'items', 'keys', 'values', 'get', 'format',
                  'split', 'strip', 'lower', 'upper', 'sum', 'mean', 'isot', 'index', 'count', 'join', 'startswith', 'endswith', 'is_equivalent',
                  'isclose', 'decompose', 'time_delay', 'sample_delay', 'chirp_function', 'chirp_from_signal', 'contains', 'get_axis',
                  '_time_slice', '_freq_slice', '_attr_repr', 'max', 'min', 'all', 'any', 'tolist', 'item'}
-ALIAS_METHODS = {'reshape', 'swapaxes', 'transpose', 'view', 'astype', 'squeeze', 'ravel', 'like', 'to_dask_array'}
+# to_value returns a VIEW of the Quantity's array when the conversion factor is 1 (astropy), .value always does
+ALIAS_METHODS = {'reshape', 'swapaxes', 'transpose', 'view', 'astype', 'squeeze', 'ravel', 'like', 'to_dask_array', 'to_value', 'flatten_view'}
 # in-place methods: a store through the receiver
 WRITE_METHODS = {'update', 'append', 'extend', 'sort', 'fill', 'setdefault', 'pop', 'clear', 'insert', 'remove', 'resize', 'put', 'itemset',
                  'setflags', 'partition', 'byteswap', 'setfield', '__setitem__', '__iadd__', '__imul__'}
 IMMUTABLE_ATTRS = {'start_time', 'stop_time', 'sample_rate', 'dt', 'center_freq', 'chan_bw', 'freq_align', 'pol_type', 'shape', 'sample_shape',
                    'ndim', 'dtype', 'nchan', 'time_length', 'max_freq', 'min_freq', 'bandwidth', 'channel_freqs', 'isscalar', 'multi_index',
-                   'start', 'stop', 'step', 'nout', 'kind', 'default', 'parameters', 'unit', 'value', 'size', '__name__', '__class__',
+                   'start', 'stop', 'step', 'nout', 'kind', 'default', 'parameters', 'unit', 'size', '__name__', '__class__',
                    'POSITIONAL_ONLY', 'empty', 'axes_labels', 'name', 'isot'}
+# NOT immutable: .value of a Quantity is a view of its array -> alias (default for attributes)
 # package-internal callees proved by their own obligation (no write); result may alias what they are given
 KNOWN_ALIAS = {'pb.time_shift', 'type(z).like', 'sig_type.like', 'sig_class.like', 'type(self).like', 'type(x).like', 'IntensitySignal.like',
                'FullStokesSignal.like', 'cls', 'super().__getitem__', 'super().__init__', 'pb.fast_len', 'pb.snippet'}
